@@ -266,7 +266,8 @@ def run(tier, seed, replay=None):
         generated = all(e["res"] == "ok" for e in ing) and bool(comp) and comp[0]["res"] == "ok"
         trace.append({"ev": "type", "case": oc_, "route": route, "generated": generated, "nsamples": len(sam),
                       "kind": cases[oc_ - 1]["def"]["kind"], "tagging": cases[oc_ - 1]["def"].get("tagging", ""),
-                      "vkinds": [v["vkind"] for v in cases[oc_ - 1]["def"].get("variants", [])]})
+                      "vkinds": [v["vkind"] for v in cases[oc_ - 1]["def"].get("variants", [])],
+                      "vtys": [",".join(v["tys"]) for v in cases[oc_ - 1]["def"].get("variants", [])]})
         des = {e["probe"]: e for e in evs if e["ev"] == "deser"}
         for k in range(1, len(sam) + 1):
             e = des.get(k)
